@@ -8,6 +8,7 @@ git checkout -q -- . ; git clean -fdq -e out -e target
 tests=$(cd "$m/demo" && ls *.rs 2>/dev/null | sed 's/\.rs$//')
 pkg=sqllogictest
 if grep -q "sqllogictest-bin/tests" "$m"/demo/README.md "$m"/meta.json 2>/dev/null; then pkg=sqllogictest-bin; fi
+if grep -q "sqllogictest-engines/tests" "$m"/demo/README.md "$m"/meta.json 2>/dev/null; then pkg=sqllogictest-engines; fi
 put_demo() { mkdir -p $pkg/tests; cp "$m"/demo/*.rs $pkg/tests/; }
 del_demo() { rm -rf $pkg/tests; }
 run_demo() { rc=0; for t in $tests; do cargo test -q -p $pkg --offline --test "$t" >/tmp/demo_$$.log 2>&1 || rc=1; done; return $rc; }
